@@ -156,3 +156,18 @@ def run_loop_skips(ctx, rl):
         res.append((bb, kind, e, [x for x, r in reach.items() if not r], [x for x, r in reach.items() if r]))
     return pt, exs[0], res
 
+
+def reads_live_word(fn, e, state_arg):
+    """does expression e decode the word at the *live* machine's PC: RunState::mem(state, RunState::pc(state)) with `state` the
+    function's own RunState parameter (not, say, a saved copy held in a field of self)?"""
+    def root_is_state(x):
+        while isinstance(x, tuple) and x and x[0] in ("ref", "deref", "cast"):
+            x = x[1] if x[0] in ("ref", "deref") else x[3]
+        return x[0] == "arg" and x[1] == state_arg
+    for x in expr_walk(e):
+        if x[0] == "call" and str(x[1]).endswith("RunState::mem") and len(x[2]) == 2 and root_is_state(x[2][0]):
+            for y in expr_walk(x[2][1]):
+                if y[0] == "call" and str(y[1]).endswith("RunState::pc") and len(y[2]) == 1 and root_is_state(y[2][0]):
+                    return True
+    return False
+
